@@ -369,3 +369,22 @@ package domain
 //@   modifies nothing
 //@   loop 0 invariant 1 <= i
 //@   loop 0 modifies unopened
+
+//@ # ---------------------------------------------------------------- opening a writer (C03: conflicting writes fail cleanly)
+//@ # A writer whose domain overlaps committed data is refused with ErrWriteConflict before any file
+//@ # handle is acquired; without a preset end the writer's end is the start of the next domain.
+//@ ignorepkg github.com/synnaxlabs/x/config
+//@ ignore func (idx *index) timeRange() telem.TimeRange
+//@ inline func (w WriterConfig) Domain() telem.TimeRange
+//@ spec func SpecWriterDomain(c WriterConfig) telem.TimeRange = __ite(c.End == 0, telem.TimeRange{Start: c.Start, End: c.Start}, telem.TimeRange{Start: c.Start, End: c.End})
+//@ func (db *DB) OpenWriter(ctx context.Context, cfg WriterConfig) (w *Writer, err error)
+//@   requires db.idx != nil && db.fc != nil && WF(db.idx.mu.pointers) && cfg.Start >= 0 && (cfg.End == 0 || cfg.Start <= cfg.End)
+//@   # config.New overlays the given configuration on the defaults (which leave Start and End unset)
+//@   assume_after "cfg, err := config.New(DefaultWriterConfig, cfg)" cfg.Start == old(cfg.Start) && cfg.End == old(cfg.End)
+//@   assert_before "key, size, internal, err := db.fc.acquireWriter(ctx)" validTR(SpecWriterDomain(cfg)) ==> (forall i int :: 0 <= i && i < len(db.idx.mu.pointers) ==> !telem.SpecOvl(db.idx.mu.pointers[i].TimeRange, SpecWriterDomain(cfg)))
+//@   ensures err == nil ==> w != nil && w.idx == db.idx && w.fc == db.fc && w.prevCommit == 0 && !w.closed && w.fileKey >= 1
+//@   ensures err == nil ==> w.Start == old(cfg.Start) && w.presetEnd == (old(cfg.End) != 0) && (old(cfg.End) != 0 ==> w.End == old(cfg.End))
+//@   # without a preset end the writer may extend up to the next committed domain and no further
+//@   ensures err == nil && old(cfg.End) == 0 ==> w.End >= w.Start && (forall i int :: 0 <= i && i < len(db.idx.mu.pointers) && db.idx.mu.pointers[i].Start >= w.Start ==> w.End <= db.idx.mu.pointers[i].Start)
+//@   ensures sameSeq(db.idx.mu.pointers, old(db.idx.mu.pointers))
+//@   modifies nothing
